@@ -556,7 +556,7 @@ def gen_tail_case(rng, stats):
             e["idx"].append(idx[0])
         e["occ"].append(g)
 
-    shape = pick(rng, ["last", "last-low", "tva", "hyph1", "hyphm", "low", "amp"])
+    shape = pick(rng, ["last", "last-low", "tva", "hyph1", "hyphm", "low", "amp", "hyphdigit"])
     stats["tail:" + shape] += 1
     if shape in ("last", "last-low"):
         first = arg(b"f", **({"num": (1, None), "action": "append"} if shape == "last-low" else {}))
@@ -609,6 +609,36 @@ def gen_tail_case(rng, stats):
         tail = [pick(rng, [pick(rng, PLAIN), b"--weird", b"-x", b"-vx"])] + [pick(rng, ANY + PLAIN) for _ in range(rng.randrange(0, 4))]
         toks.extend(tail)
         give(args, tail)
+    elif shape == "hyphdigit":
+        # short flags whose character is a DIGIT (`ls -1`, `xargs -0`) in front of a positional that accepts hyphen values and
+        # has not started: a token that spells defined flags is those flags, also when it looks like a negative number
+        # (seeded change seed4/C02-1 made allow_hyphen_values imply allow_negative_numbers)
+        one = arg(b"1", short="1", action="settrue")
+        zero = arg(b"0", short="0", action="count")
+        paths = arg(b"a", num=(0, None), action="append", flags={"hyphen"})
+        c["args"] += [one, zero, paths]
+        nz = 0
+        for _ in range(rng.randrange(1, 4)):
+            t = pick(rng, [b"-1", b"-0", b"-0", b"-00", b"-v", b"-v0", b"-01", b"-10"])
+            if b"1" in t and b"1" in exp:
+                continue
+            toks.append(t)
+            for ch in t[1:].decode():
+                idx[0] += 1
+                if ch == "1":
+                    exp[b"1"] = {"occ": [[b"true"]], "idx": [idx[0]]}
+                elif ch == "0":
+                    nz += 1
+                    exp.pop(b"0", None)
+                    exp[b"0"] = {"occ": [[str(nz).encode()]], "idx": [idx[0]]}
+                else:
+                    nv[0] += 1
+                    exp.pop(b"v", None)
+                    exp[b"v"] = {"occ": [[str(nv[0]).encode()]], "idx": [idx[0]]}
+        if rng.random() < 0.8:
+            tail = [pick(rng, PLAIN)] + [pick(rng, ANY + PLAIN + [b"-1", b"-0"]) for _ in range(rng.randrange(0, 3))]
+            toks.extend(tail)
+            give(paths, tail)
     elif shape == "low":
         src = arg(b"s", num=(1, None), flags={"required"})
         dst = arg(b"d", flags={"required"})
